@@ -108,6 +108,14 @@ PROPS = {
         "hypotheses": [X_NONID, "X-LIN: the response point v = -(x'+y)*sig is not the identity (x'+y != 0)", "X-RO: another timestamp gives another derived challenge"],
         "not_decided": ["'rejected once the timeout has elapsed' is proved as: Ok implies the equation for the derived challenge, and the elapsed-time comparison is part of the verified body; the wall clock itself is an arbitrary value"],
     },
+    "C11": {
+        "units": [leaf("assertion failed: o"), gen("C11")],
+        "trusted_base": TB_ALGEBRA + ["H-XOF: SHAKE128 is an uninterpreted function of (absorbed input, output length)", "L-ZIGZAG: LEB128 peek/try_from/to_vec facts (prefix, round trip, length <= 19)", "A-RNG (see C20)",
+                                      "byte_xor: contract assumed in the Verus unit (zip iterator), checked by Kani only at N in {0,4} (BOUNDED)"],
+        "hypotheses": [X_NONID, "X-INJ / X-DSEP on the hash input enc(U)||V for altered U, V or scheme label", "X-RO: a different secret key unmasks with an unrelated keystream"],
+        "bounded_parts": ["byte_xor element-wise contract: Kani at N in {0, 4}"],
+        "not_decided": ["'decryption under a different secret key never returns the original message' (statistical statement about SHAKE128 output)"],
+    },
     "C15": {
         "units": [LEAF_FUNCTIONAL_BOTH, gen("C15", props=["lib_bytes.rs", "C15.rs"])],
         "trusted_base": TB_ALGEBRA + ["A-ENC / scalar_le: to_repr/from_repr are inverse on canonical encodings; the all-zero encoding is exactly the zero scalar",
